@@ -438,6 +438,8 @@ type FakeDocker struct {
 	ListErr    error
 	// Gate, if set, is called at the start of every ContainerLogs with the container id, and may block.
 	Gate func(id string)
+	// Done, if set, is called when ContainerLogs is about to return (after the reader exists).
+	Done func(id string)
 	// FilterByTime makes the fake honour since/until like the daemon does (whole seconds, inclusive).
 	FilterByTime bool
 	Frames       map[string][]Frame // needed when FilterByTime is set
@@ -471,6 +473,9 @@ func (f *FakeDocker) ContainerLogs(_ context.Context, id string, opts apicontain
 	f.mu.Unlock()
 	if f.Gate != nil {
 		f.Gate(id)
+	}
+	if f.Done != nil {
+		defer f.Done(id)
 	}
 	for _, c := range f.Containers {
 		if c.C.ID != id {
